@@ -17,3 +17,5 @@ def run(chk):
     handler_preamble(chk, ex, FUNCS["invoke"])
     hobl.c14_invoke(chk, ex)
     hobl.c01_terminal_skips(chk, ex, prefix="C14")
+    from . import batcher
+    batcher.check_consumer(chk, "C14")  # the callback id / invoke status read after START comes from the merged response: synchronous callers are released only after the merge
